@@ -6,7 +6,7 @@ CONSTANTS
   Breaks <- BreaksQ
   Degs <- Degs4
   MaxNpts = 8
-  Acts = {"CvIntegrate"}
+  Acts = {"CvIntegrate", "IntegrateFn"}
   PtKinds = {"gen", "unit"}
   WtKinds = {"none"}
   ExtraNodes <- Extra0
